@@ -3,7 +3,7 @@ From Coq Require Import ZArith QArith List Bool String Ascii Lia.
 From KV Require Import Base.Sx Base.Str Gen.Generated Model.Interp Model.SensorCache Model.SensorKeep Model.SensorTmpl
   Model.SensorApi Proofs.InterpP Proofs.SensorCacheP Proofs.SensorKeepP Proofs.SensorTmplP.
 Import ListNotations.
-Open Scope Q_scope.
+Local Open Scope Q_scope.
 
 Lemma prefix_refl : forall s, String.prefix s s = true.
 Proof. induction s as [|a s IH]; simpl; [reflexivity|]. destruct (ascii_dec a a); [exact IH|congruence]. Qed.
